@@ -27,10 +27,12 @@ import (
 // ---------------------------------------------------------------------------------------------------------------------
 // alphabet
 
+// The second byte of the nested keys is 0xff: a scan prefix that ends in 0xff has no "last byte + 1" upper bound (the
+// bound carries into the byte before), which is where hand-rolled prefix ranges go wrong.
 var (
 	kK   = []byte{0x10}
-	kKA  = []byte{0x10, 0x11}
-	kKAB = []byte{0x10, 0x11, 0x12}
+	kKA  = []byte{0x10, 0xff}
+	kKAB = []byte{0x10, 0xff, 0x12}
 	kM   = []byte{0x20}
 	kNil = []byte{} // the zero-length key: sorts before everything, and is what the key p becomes below Subset(p)
 	keys = [][]byte{kNil, kK, kKA, kKAB, kM}
@@ -56,7 +58,7 @@ var writeSets = [][]write{
 // prefixes under which every view is also read through Subset(p), and over which Subset(p).Snapshot() views are opened
 // (slices with spare capacity, as prefixes built with append / JoinBytes have: an implementation that appends to the prefix
 // it was given writes into the caller's backing array)
-var subPrefixes = [][]byte{sentinelled(0x10), sentinelled(0x10, 0x11)}
+var subPrefixes = [][]byte{sentinelled(0x10), sentinelled(0x10, 0xff)}
 
 // sentinelled returns a prefix slice of capacity 16 whose spare capacity is filled with 0xAA: whoever is handed the slice
 // may read its len bytes and nothing else is its to write (checked after every use: untouchedBeyondLen)
@@ -382,7 +384,7 @@ func (x *run) apply(o Op) {
 	}
 }
 
-var scanPrefixes = [][]byte{nil, {0x10}, {0x10, 0x11}, {0x10, 0x11, 0x12}, {0x20}, {0x00}, {0x01}, {0x02}, {0x30}}
+var scanPrefixes = [][]byte{nil, {0x10}, {0x10, 0xff}, {0x10, 0xff, 0x12}, {0x20}, {0x00}, {0x01}, {0x02}, {0x30}}
 
 func (x *run) checkViews(after Op) (reads int) {
 	r := x.ref
@@ -542,7 +544,7 @@ func (x *run) checkSubsets(after Op, v *refView, cur content, universe map[strin
 				x.fail("subset-get-wrong", "after %v: %s Subset(%x).Get(%x) = %x,%v want not-found", after, v.desc, p, k, got, err)
 			}
 		}
-		for _, sp := range [][]byte{nil, {0x11}, {0x12}} {
+		for _, sp := range [][]byte{nil, {0xff}, {0x12}} {
 			reads++
 			var wk []string
 			for k := range want {
@@ -605,7 +607,7 @@ func (x *run) checkSubsets(after Op, v *refView, cur content, universe map[strin
 		// a transient Subset(p).Snapshot() (the composition the node uses for account and contract stores): writes made
 		// through it stay in its own overlay, so it can be written, read back completely and dropped without changing
 		// the state under exploration
-		for _, tw := range [][]write{{{kNil, vY}}, {{[]byte{0x11}, nil}, {kNil, vE}}} {
+		for _, tw := range [][]write{{{kNil, vY}}, {{[]byte{0xff}, nil}, {kNil, vE}}} {
 			snap := sub.Snapshot()
 			exp := want.clone()
 			for _, w := range tw {
